@@ -97,13 +97,30 @@ def keyed_case(draw):
     items = [[k, i] for i, k in enumerate(keys)]
     parent = draw(st.sampled_from(['group_by', 'group_by', 'roll', 'split']))
     spec = [draw(st.integers(1, 5)), draw(st.integers(1, 5))] if parent == 'roll' else None
-    return {'w': w, 's': s, 'items': items, 'parent': parent, 'pspec': spec}
+    return {'w': w, 's': s, 'items': items, 'parent': parent, 'pspec': spec, 'objects': draw(st.booleans())}
+
+
+class Rec(object):
+    """an item without value semantics (a plain instance is equal only to itself): a window must receive the key's items
+    THEMSELVES, not look-alikes"""
+
+    def __init__(self, k, i):
+        self.k, self.i = k, i
+
+    def __getitem__(self, n):
+        return (self.k, self.i)[n]
+
+    def __repr__(self):
+        return 'Rec(%r, %r)' % (self.k, self.i)
+
+    def __deepcopy__(self, memo):
+        return self
 
 
 def check_keyed(case):
     """roll under group_by (interleaved keys) / nested in roll / split: every parent key lifetime separately."""
     w, s, parent = case['w'], case['s'], case['parent']
-    items = [tuple(i) for i in case['items']]
+    items = [Rec(*i) for i in case['items']] if case.get('objects') else [tuple(i) for i in case['items']]
     ctx = {'w': w, 's': s, 'items': case['items'], 'parent': parent, 'pspec': case['pspec']}
     clock, phead, head = [0], [], []
     inner = [drive.tap(phead, clock), rs.data.roll(w, s, [drive.tap(head, clock), rs.data.to_list()])]
@@ -131,7 +148,9 @@ def check_keyed(case):
     if claimed != len(wl):
         raise Violation('%d windows were opened outside any parent key lifetime' % (len(wl) - claimed), **ctx)
     labels = ['parent:' + parent, 's<w' if s < w else ('s=w' if s == w else 's>w'), 'parent-lifetimes=%d' % min(len(plts), 4)]
-    keys = [k for k, _ in items]
+    keys = [k for k, _ in case['items']]
+    if case.get('objects'):
+        labels.append('identity-items')
     if parent == 'group_by' and keys != sorted(keys):
         labels.append('interleaved')
     slots = {}
